@@ -228,24 +228,46 @@ def run(chk: core.Check, tier: str, seed: int) -> None:
     cfgs = "MCConfigsSmall" if tier == "quick" else "MCConfigs"
     cfg = (f"SPECIFICATION Spec\nCONSTANTS\n  Configs <- {cfgs}\n  AllowAbandon = TRUE\n"
            "INVARIANT IterIndependence\nINVARIANT Export\nCHECK_DEADLOCK FALSE\n")
-    res = core.require_ok(core.run_tlc("MC_Iters", cfg, name="mc_iters", heap="16g", timeout=6000), "MC_Iters")
+    res = core.require_ok(core.run_tlc("MC_Iters", cfg, name="mc_iters", heap="16g", timeout=6000, to_file=True), "MC_Iters")
     chk.add_tlc(f"MC_Iters {cfgs}: all interleavings of next/abandon, IterIndependence", res)
-    gens = [json.loads(json.loads(line.strip())[4:]) for line in res.out.splitlines() if line.strip().startswith('"GEN ')]
-    if len(gens) < 100:
-        raise core.MachineryError(f"only {len(gens)} schedules exported")
-    chunks = [gens[i:i + 400] for i in range(0, len(gens), 400)]
+    # the thorough configurations export millions of schedules: they are streamed from TLC's output file in
+    # rounds of NCPU x 400 and never held all at once
+    n_gens = 0
+    sample = None
+
+    def rounds():
+        batch = []
+        with open(res.path) as fh:
+            for line in fh:
+                line = line.strip()
+                if line.startswith('"GEN '):
+                    batch.append(json.loads(json.loads(line)[4:]))
+                    if len(batch) == 400 * core.NCPU:
+                        yield batch
+                        batch = []
+        if batch:
+            yield batch
+
     with mp.Pool(core.NCPU) as pool:
-        verdicts = [v for ch in pool.map(_replay_many, chunks) for v in ch]
-    for g, bad in zip(gens, verdicts):
-        chk.evaluations += 1
-        chk.nontrivial.add((tuple(g["cfg"]), tuple((s["it"], s["act"]) for s in g["sched"])))
-        if bad:
-            chk.violation({"clause": "iterator yielded a different item than its solitary run",
-                           "iterator_kind": g["cfg"][bad["iterator"] - 1] if isinstance(bad["iterator"], int) else bad["iterator"]},
-                          {"config": g["cfg"], "schedule": [(s["it"], s["act"]) for s in g["sched"]], "failure": bad,
-                           "queries": QUERIES})
-    chk.traces += len(gens)
-    chk.sample({"config": gens[0]["cfg"], "schedule": [(s["it"], s["act"], s["item"]) for s in gens[len(gens) // 2]["sched"]]})
+        for batch in rounds():
+            chunks = [batch[i:i + 400] for i in range(0, len(batch), 400)]
+            verdicts = [v for ch in pool.map(_replay_many, chunks) for v in ch]
+            for g, bad in zip(batch, verdicts):
+                chk.evaluations += 1
+                chk.nontrivial.add(hash((tuple(g["cfg"]), tuple((s["it"], s["act"]) for s in g["sched"]))))
+                if bad:
+                    chk.violation({"clause": "iterator yielded a different item than its solitary run",
+                                   "iterator_kind": g["cfg"][bad["iterator"] - 1] if isinstance(bad["iterator"], int) else bad["iterator"]},
+                                  {"config": g["cfg"], "schedule": [(s["it"], s["act"]) for s in g["sched"]], "failure": bad,
+                                   "queries": QUERIES})
+            n_gens += len(batch)
+            if sample is None:
+                sample = batch[len(batch) // 2]
+    if n_gens < 100:
+        raise core.MachineryError(f"only {n_gens} schedules exported")
+    gens = range(n_gens)
+    chk.traces += n_gens
+    chk.sample({"config": sample["cfg"], "schedule": [(s["it"], s["act"], s["item"]) for s in sample["sched"]]})
     # threads
     recs = []
     runs = 6 if tier == "quick" else 200
